@@ -3,7 +3,10 @@ use crate::errors::ArchiveError;
 use crate::{Endian, EndianAwareReader, EndianAwareWriter};
 use encoding_rs::SHIFT_JIS;
 use indexmap::IndexMap;
+#[cfg(not(mila_verif))]
 use std::collections::{HashMap, HashSet};
+#[cfg(mila_verif)]
+use {crate::verif_seam::HashMap, std::collections::HashSet};
 use std::io::{Cursor, Read, Seek, SeekFrom, Write};
 
 type Result<T> = std::result::Result<T, ArchiveError>;
